@@ -157,6 +157,12 @@ func runWithFaults(c *sim.Case, ho histOpts, ops []op, mons func() []monitor, ma
 func c01Random(c *sim.Case) {
 	ho := genHistOpts(c)
 	ops := genOps(c, c01Profile, 30)
+	if sim.Weighted(c, "refresh-prefix", 1, 2) == 1 {
+		// start with a session that has just outlived a token, so that the refresh path (and its fault points) is reached often
+		b := sim.Pick(c, "prefix.b", 2)
+		pre := []op{{K: "login", B: b, Target: "/a"}, {K: "advance", B: b, Rel: sim.PickStr(c, "prefix.rel", "idexp", "atexp"), D: time.Duration(1+sim.Pick(c, "prefix.off", 3)) * 500 * time.Millisecond}, {K: "nav", B: b, Target: "/a"}}
+		ops = append(pre, ops...)
+	}
 	h1, h2 := runWithFaults(c, ho, ops, func() []monitor { return []monitor{c01Mon{}} }, 2)
 	c01Classify(c, ho, h1, h2)
 }
@@ -293,5 +299,5 @@ func TestC01(t *testing.T) {
 	if r.Thorough() {
 		r.Exhaustive("enum-pairs", 0, parts["enum-pairs"])
 	}
-	r.Rapid("random", r.N(3000, 120000), c01Random)
+	r.Rapid("random", r.N(12000, 200000), c01Random)
 }
